@@ -32,7 +32,24 @@ import (
 type funcSig struct {
 	params    []string // parameter names of the translation, in order
 	onlySlice bool     // the result is exactly the one byte slice it stores into
+	recv      string   // receiver identifier (its fields are the parameters <recv>_<Field>)
+	outs      []string // what is returned besides the Go results
+	nres      int      // number of Go results
+	objResult []string // the one result is an object: its fields
 }
+
+// a local variable that stands for an object
+type obj struct {
+	kind   string   // "struct": an object of a type whose methods are translated; "sha": a SHA-256 state; "abstract": a value only read
+	pkg    string   // package of the struct type
+	tname  string   // name of the struct type
+	fields []string // struct: its unsigned-integer fields, in order
+}
+
+// packages whose translations the functions of the current package call
+var curDeps = map[string]bool{}
+
+var usesSha bool
 
 var translated = map[string]*funcSig{} // "pkg.Recv.Method" / "pkg.func" -> signature
 
@@ -46,6 +63,113 @@ type tr struct {
 	defs  []string
 	outs  []string // what is returned besides the Go results: slices stored into / receiver fields assigned
 	nres  int
+	objs  map[string]*obj
+	extra []string // parameters found while translating: fields and methods of abstract objects
+	extraT map[string]string
+	retObj []string
+}
+
+func (t *tr) objOf(e ast.Expr) (*obj, string) {
+	if p, ok := e.(*ast.ParenExpr); ok {
+		return t.objOf(p.X)
+	}
+	id, ok := e.(*ast.Ident)
+	if !ok {
+		return nil, ""
+	}
+	o, ok := t.objs[id.Name]
+	if !ok {
+		return nil, ""
+	}
+	return o, coqIdent(id.Name)
+}
+
+func (t *tr) addExtra(name, ty string) {
+	if _, ok := t.extraT[name]; !ok {
+		t.extra = append(t.extra, name)
+		t.extraT[name] = ty
+	}
+}
+
+func structFields(ty types.Type) (pkg, tname string, fields []string, ok bool) {
+	if p, isP := ty.(*types.Pointer); isP {
+		ty = p.Elem()
+	}
+	n, isN := ty.(*types.Named)
+	if !isN {
+		return "", "", nil, false
+	}
+	st, isS := n.Underlying().(*types.Struct)
+	if !isS || n.Obj().Pkg() == nil {
+		return "", "", nil, false
+	}
+	for i := 0; i < st.NumFields(); i++ {
+		if uintWidth(st.Field(i).Type()) == 0 {
+			return "", "", nil, false
+		}
+		fields = append(fields, st.Field(i).Name())
+	}
+	return n.Obj().Pkg().Name(), n.Obj().Name(), fields, true
+}
+
+func objVars(name string, fields []string) []string {
+	var out []string
+	for _, f := range fields {
+		out = append(out, coqIdent(name+"_"+f))
+	}
+	return out
+}
+
+// the call of a translated method on an object: function name and arguments
+func (t *tr) callOnObj(o *obj, name, method string, args []ast.Expr) (*funcSig, string, error) {
+	key := o.pkg + "." + o.tname + "." + method
+	sig, ok := translated[key]
+	if !ok {
+		return nil, "", fmt.Errorf("method %s is not translated", key)
+	}
+	if o.pkg != t.pn {
+		curDeps[o.pkg] = true
+	}
+	var as []string
+	k := 0
+	for _, p := range sig.params {
+		if sig.recv != "" && strings.HasPrefix(p, sig.recv+"_") {
+			as = append(as, coqIdent(name+"_"+strings.TrimPrefix(p, sig.recv+"_")))
+			continue
+		}
+		if k >= len(args) {
+			return nil, "", fmt.Errorf("too few arguments for %s", key)
+		}
+		a, err := t.expr(args[k])
+		if err != nil {
+			return nil, "", err
+		}
+		k++
+		as = append(as, a)
+	}
+	return sig, "(src_" + strings.ReplaceAll(key, ".", "_") + " " + strings.Join(as, " ") + ")", nil
+}
+
+// outputs of a method call renamed to the object it is called on
+func renameOuts(sig *funcSig, name string) []string {
+	var out []string
+	for _, o := range sig.outs {
+		out = append(out, coqIdent(name+"_"+strings.TrimPrefix(o, sig.recv+"_")))
+	}
+	return out
+}
+
+func isPkgCall(info *types.Info, c *ast.CallExpr, path, fn string) bool {
+	s, ok := c.Fun.(*ast.SelectorExpr)
+	if !ok || s.Sel.Name != fn {
+		return false
+	}
+	id, ok := s.X.(*ast.Ident)
+	if !ok {
+		return false
+	}
+	pk, ok := info.Uses[id].(*types.PkgName)
+	return ok && pk.Imported().Path() == path
 }
 
 func uintWidth(t types.Type) int {
@@ -160,6 +284,65 @@ func (t *tr) expr(e ast.Expr) (string, error) {
 			return fmt.Sprint(constant.BoolVal(v)), nil
 		}
 	}
+	// objects: h.Sum16(), h.Sum(nil), msg.Payload, msg.GetID()
+	if c, ok := e.(*ast.CallExpr); ok {
+		if sel, ok := c.Fun.(*ast.SelectorExpr); ok {
+			if o, name := t.objOf(sel.X); o != nil {
+				switch o.kind {
+				case "sha":
+					if sel.Sel.Name == "Sum" {
+						return "(sha256 " + name + "_in)", nil
+					}
+					return "", fmt.Errorf("unsupported use of a hash")
+				case "struct":
+					sig, call, err := t.callOnObj(o, name, sel.Sel.Name, c.Args)
+					if err != nil {
+						return "", err
+					}
+					if sig.nres != 1 || len(sig.outs) != 0 {
+						return "", fmt.Errorf("method used as a value has effects")
+					}
+					return call, nil
+				case "abstract":
+					if len(c.Args) == 0 && uintWidth(t.info.TypeOf(e)) > 0 {
+						n := coqIdent(name + "_" + sel.Sel.Name)
+						t.addExtra(n, "N")
+						return n, nil
+					}
+					return "", fmt.Errorf("unsupported call on %s", name)
+				}
+			}
+		}
+	}
+	if sel, ok := e.(*ast.SelectorExpr); ok {
+		if o, name := t.objOf(sel.X); o != nil && o.kind == "abstract" {
+			ty := t.info.TypeOf(e)
+			n := coqIdent(name + "_" + sel.Sel.Name)
+			switch {
+			case uintWidth(ty) > 0:
+				t.addExtra(n, "N")
+			case isBytes(ty):
+				t.addExtra(n, "list N")
+			default:
+				return "", fmt.Errorf("field %s of an unsupported type", n)
+			}
+			return n, nil
+		}
+	}
+	if cl, ok := e.(*ast.CompositeLit); ok && isBytes(t.info.TypeOf(e)) {
+		var el []string
+		for _, x := range cl.Elts {
+			if _, isKV := x.(*ast.KeyValueExpr); isKV {
+				return "", fmt.Errorf("keyed byte literal")
+			}
+			v, err := t.expr(x)
+			if err != nil {
+				return "", err
+			}
+			el = append(el, v)
+		}
+		return "[" + strings.Join(el, "; ") + "]", nil
+	}
 	if name, ok := t.abstractCall(e); ok {
 		return name, nil
 	}
@@ -180,6 +363,17 @@ func (t *tr) expr(e ast.Expr) (string, error) {
 		// x[:] of a byte array (pointer): the same list
 		if x.Low == nil && x.High == nil && x.Max == nil && isBytes(t.info.TypeOf(x.X)) {
 			return t.expr(x.X)
+		}
+		if x.Low == nil && x.High != nil && x.Max == nil && isBytes(t.info.TypeOf(x.X)) {
+			base, err := t.expr(x.X)
+			if err != nil {
+				return "", err
+			}
+			h, err := t.natIndex(x.High)
+			if err != nil {
+				return "", err
+			}
+			return "(firstn " + h + " " + base + ")", nil
 		}
 		return "", fmt.Errorf("unsupported slice expression")
 	case *ast.IndexExpr:
@@ -449,9 +643,23 @@ func (t *tr) assignedIn(list []ast.Stmt) []string {
 				add(nm)
 			}
 		case *ast.ExprStmt:
-			if c, ok := s.X.(*ast.CallExpr); ok && len(c.Args) >= 1 {
-				if _, base, ok, err := t.storeCall(c, ""); ok && err == nil {
-					add(base)
+			if c, ok := s.X.(*ast.CallExpr); ok {
+				if sel, ok := c.Fun.(*ast.SelectorExpr); ok {
+					if o, name := t.objOf(sel.X); o != nil {
+						if o.kind == "sha" {
+							add(name + "_in")
+						} else if sig, ok := translated[o.pkg+"."+o.tname+"."+sel.Sel.Name]; ok {
+							for _, v := range renameOuts(sig, name) {
+								add(v)
+							}
+						}
+						return true
+					}
+				}
+				if len(c.Args) >= 1 {
+					if _, base, ok, err := t.storeCall(c, ""); ok && err == nil {
+						add(base)
+					}
 				}
 			}
 		}
@@ -514,6 +722,80 @@ func (t *tr) stmts(list []ast.Stmt, tail func() (string, error)) (string, error)
 			}
 			return bind("let " + base + " := set_nth " + base + " " + i + " " + v + " in")
 		}
+		if s.Tok == token.DEFINE {
+			if id, ok := s.Lhs[0].(*ast.Ident); ok {
+				lhs := coqIdent(id.Name)
+				switch r := s.Rhs[0].(type) {
+				case *ast.TypeAssertExpr:
+					// msg := f.GetMessage().(*T): a value that is only read; what is read of it becomes a parameter
+					t.objs[id.Name] = &obj{kind: "abstract"}
+					return rest()
+				case *ast.UnaryExpr:
+					// x := &T{}
+					if cl, ok := r.X.(*ast.CompositeLit); ok && r.Op == token.AND && len(cl.Elts) == 0 {
+						if pk, tn, fs, ok := structFields(t.info.TypeOf(cl)); ok {
+							t.objs[id.Name] = &obj{kind: "struct", pkg: pk, tname: tn, fields: fs}
+							var b []string
+							for _, v := range objVars(lhs, fs) {
+								b = append(b, "let "+v+" := 0 in")
+							}
+							return bind(strings.Join(b, "\n  "))
+						}
+					}
+				case *ast.CallExpr:
+					if isPkgCall(t.info, r, "crypto/sha256", "New") {
+						t.objs[id.Name] = &obj{kind: "sha"}
+						usesSha = true
+						return bind("let " + lhs + "_in := (@nil N) in")
+					}
+					if fid, ok := r.Fun.(*ast.Ident); ok && (fid.Name == "make" || fid.Name == "new") {
+						ty := t.info.TypeOf(s.Rhs[0])
+						if isBytes(ty) {
+							n := ""
+							if fid.Name == "make" && len(r.Args) == 2 {
+								n, _ = t.natIndex(r.Args[1])
+							} else if pt, ok := ty.Underlying().(*types.Pointer); ok {
+								if a, ok := pt.Elem().Underlying().(*types.Array); ok {
+									n = fmt.Sprintf("%d%%nat", a.Len())
+								}
+							}
+							if n != "" {
+								return bind("let " + lhs + " := repeat 0 " + n + " in")
+							}
+						}
+						return "", fmt.Errorf("unsupported allocation")
+					}
+					// h := pkg.New() for a translated constructor
+					key := ""
+					if sel, ok := r.Fun.(*ast.SelectorExpr); ok {
+						if pid, ok := sel.X.(*ast.Ident); ok {
+							if pk, ok := t.info.Uses[pid].(*types.PkgName); ok {
+								key = pk.Imported().Name() + "." + sel.Sel.Name
+							}
+						}
+					} else if fid, ok := r.Fun.(*ast.Ident); ok {
+						key = t.pn + "." + fid.Name
+					}
+					if sig, ok := translated[key]; ok && sig.objResult != nil {
+						if pk, tn, fs, ok := structFields(t.info.TypeOf(s.Rhs[0])); ok {
+							if pk != t.pn {
+								curDeps[pk] = true
+							}
+							t.objs[id.Name] = &obj{kind: "struct", pkg: pk, tname: tn, fields: fs}
+							var as []string
+							for _, a := range r.Args {
+								v, err := t.expr(a)
+								if err != nil {
+									return "", err
+								}
+								as = append(as, v)
+							}
+							return bind("let " + pattern(objVars(lhs, fs)) + " := src_" + strings.ReplaceAll(key, ".", "_") + " " + strings.Join(as, " ") + " in")
+						}
+					}
+				}
+			}
+		}
 		name, err := t.varName(s.Lhs[0])
 		if err != nil {
 			return "", err
@@ -571,6 +853,32 @@ func (t *tr) stmts(list []ast.Stmt, tail func() (string, error)) (string, error)
 		c, ok := s.X.(*ast.CallExpr)
 		if !ok {
 			return "", fmt.Errorf("unsupported expression statement")
+		}
+		// x.M(args) on an object
+		if sel, ok := c.Fun.(*ast.SelectorExpr); ok {
+			if o, name := t.objOf(sel.X); o != nil {
+				switch o.kind {
+				case "sha":
+					if sel.Sel.Name != "Write" || len(c.Args) != 1 {
+						return "", fmt.Errorf("unsupported use of a hash")
+					}
+					a, err := t.expr(c.Args[0])
+					if err != nil {
+						return "", err
+					}
+					return bind("let " + name + "_in := (" + name + "_in ++ " + a + ")%list in")
+				case "struct":
+					sig, call, err := t.callOnObj(o, name, sel.Sel.Name, c.Args)
+					if err != nil {
+						return "", err
+					}
+					if sig.nres != 0 || len(sig.outs) == 0 {
+						return "", fmt.Errorf("method called as a statement has results or no effect")
+					}
+					return bind("let " + pattern(renameOuts(sig, name)) + " := " + call + " in")
+				}
+				return "", fmt.Errorf("unsupported call on %s", name)
+			}
 		}
 		b, _, ok, err := t.storeCall(c, "")
 		if err != nil {
@@ -647,6 +955,12 @@ func (t *tr) stmts(list []ast.Stmt, tail func() (string, error)) (string, error)
 			return "", fmt.Errorf("return with %d results", len(s.Results))
 		}
 		var rs []string
+		if len(s.Results) == 1 {
+			if o, name := t.objOf(s.Results[0]); o != nil && o.kind == "struct" {
+				t.retObj = o.fields
+				return tuple(append(objVars(name, o.fields), t.outs...)), nil
+			}
+		}
 		for _, r := range s.Results {
 			v, err := t.expr(r)
 			if err != nil {
@@ -661,7 +975,7 @@ func (t *tr) stmts(list []ast.Stmt, tail func() (string, error)) (string, error)
 }
 
 func translateFunc(o *srcOut, p *packages.Package, pn, name string, d *ast.FuncDecl) error {
-	t := &tr{info: p.TypesInfo, pn: pn, name: name}
+	t := &tr{info: p.TypesInfo, pn: pn, name: name, objs: map[string]*obj{}, extraT: map[string]string{}}
 	var params []string // "(x : N)" forms
 	var pnames []string
 	addParam := func(n, ty string) {
@@ -792,11 +1106,15 @@ func translateFunc(o *srcOut, p *packages.Package, pn, name string, d *ast.FuncD
 	for _, dd := range t.defs {
 		o.b.WriteString(dd + "\n")
 	}
+	for _, x := range t.extra {
+		addParam(x, t.extraT[x])
+	}
 	fmt.Fprintf(&o.b, "Definition %s %s :=\n  %s.\n", name, strings.Join(params, " "), body)
 	o.count["func"]++
 	key := strings.ReplaceAll(strings.TrimPrefix(name, "src_"), "_", ".")
 	_ = key
-	sig := &funcSig{params: pnames, onlySlice: t.nres == 0 && len(t.outs) == 1 && len(sliceParams) > 0 && t.outs[0] == sliceParams[0]}
+	sig := &funcSig{params: pnames, onlySlice: t.nres == 0 && len(t.outs) == 1 && len(sliceParams) > 0 && t.outs[0] == sliceParams[0],
+		recv: t.recv, outs: t.outs, nres: t.nres, objResult: t.retObj}
 	if d.Recv != nil {
 		translated[pn+"."+t.rtype+"."+d.Name.Name] = sig
 	} else {
